@@ -108,6 +108,10 @@ def run_case(case, want_trace=False):
                     o.trigger(None, is_last=True)
                 net.order += 1
                 net.events.append((net.loop.time(), "end-all", "last", net.order))
+                if ev.get("then_bump"):
+                    # a state change right behind the "this is the last one" trigger: the pending notification
+                    # picks up the newer state, but it stays the last one
+                    bump(ev["then_bump"])
             elif ev["kind"] == "unsuccessful":
                 res.updated_state(aiocoap.Message(code=aiocoap.numbers.codes.Code(R.INTERNAL_SERVER_ERROR), payload=b"bye"))
                 net.order += 1
@@ -403,6 +407,8 @@ def _case(draw):
             # an explicit terminator shares its instant with no other trigger: the one-slot trigger queue is lossy by design,
             # so a same-instant state change could legitimately supersede it
             ev["t"] = round(ev["t"] + 0.0007 * (1 + len(events)), 6)
+            if kind == "last" and draw(st.booleans()):
+                ev["then_bump"] = draw(st.sampled_from([1, 1, 2]))
         if kind in ("register", "plain", "deregister"):
             ev["observer"] = draw(st.integers(0, nobs - 1))
             ev["token"] = draw(st.integers(0, 1))
